@@ -5,6 +5,7 @@ from props import drawgen
 CASE_TYPE = "(t19case * t19out)"
 IMPORTS = "Require Import Model.TestImage Corr.C19."
 PER_SHARD = 24
+PROPS_FILES = ["C19", "C19D"]      # C19D: the test image drawn through a real Display (composition with C01)
 RULE = ("the real TestImage::draw (a) on a minimal clipping DrawTarget that implements only draw_iter (so embedded-graphics' default "
         "fill_contiguous / fill_solid run and the image can rely on nothing but clipping), whole raster compared with the Coq picture "
         "function and judged by the property's clauses (no panic; for >= 32x32: every pixel painted, white frame exactly one pixel, a "
